@@ -17,7 +17,8 @@ CONFIGS = {
     "C11": {
         "quick": [("w_same", "waker", "WB_same", "S_w2", "M_p2"),
                   ("w_words", "waker", "WB_words", "S_w2b", "M_p1"),
-                  ("w_bms", "waker", "WB_bms", "S_w2c", "M_p1")],
+                  ("w_bms", "waker", "WB_bms", "S_w2c", "M_p1"),
+                  ("w_two", "waker", "WB_two", "S_w2d", "M_p1")],
         "thorough": [("w_three", "waker", "WB_three", "S_w3", "M_p2"),
                      ("w_same3", "waker", "WB_same", "S_w2", "M_p3")],
     },
@@ -32,7 +33,8 @@ CONFIGS = {
         "quick": [("c1", "channel", "NoWakers", "S_c1", "M_c1"),
                   ("c2g", "channel", "NoWakers", "S_c2", "M_cg"),
                   ("c1g2", "channel", "NoWakers", "S_c1", "M_cg2"),
-                  ("c1far", "channel", "WB_far", "S_c1", "M_c1")],
+                  ("c1far", "channel", "WB_far", "S_c1", "M_c1"),
+                  ("cctl", "channel", "WB_ctl", "S_ctl", "M_c1")],
         "thorough": [("c3g", "channel", "NoWakers", "S_c3", "M_cg"),
                      ("c2", "channel", "NoWakers", "S_c2", "M_c1")],
     },
@@ -161,6 +163,10 @@ def rand_scripts(rng, kind):
         threads = [[["send", 10 * t + i] for i in range(1, rng.randrange(2, 4))] + ([["isclosed"]] if rng.random() < 0.3 else [])
                    for t in range(1, nth + 1)]
         main = [["poll"] for _ in range(rng.randrange(0, 3))]
+        if rng.random() < 0.25:
+            # the guard is dropped by another Waker's handler, inside poll_wake
+            threads[rng.randrange(len(threads))].insert(rng.randrange(0, 2), ["wakectl"])
+            return {"kind": "channel", "wakers": [], "threads": threads, "main": main, "ctl": True}
         if rng.random() < 0.6:
             main.insert(rng.randrange(0, len(main) + 1), ["dropguard"])
         return {"kind": "channel", "wakers": [], "threads": threads, "main": main}
@@ -188,7 +194,8 @@ def rand_scripts(rng, kind):
         main.append(["pdrop"])
         if rng.random() < 0.5:
             main.append(["poll"])
-    return {"kind": "piped", "wakers": [], "threads": [ops], "main": main, "autodrop": True}
+    return {"kind": "piped", "wakers": [], "threads": [ops], "main": main, "autodrop": True,
+            "echo": rng.random() < 0.2}
 
 
 def observed_orderings(lines):
@@ -246,7 +253,7 @@ def run(prop, tier, seed, replay=None):
             if "Model checking completed. No error has been found." not in out:
                 raise common.ToolError("TLC did not complete on Sync/%s:\n%s" % (name, out[-3000:]))
             cfgx = write_cfg(name + "_x", k, wb, sc, ms, "SeqCst", "SeqCst", True)
-            out = tlc_run(cfgx, "syncsim-%s-%s" % (prop, name), sim=nsim, seed=seed)
+            out = tlc_run(cfgx, "syncsim-%s-%s" % (prop, name), sim=(nsim // 4 if name == "w_two" else nsim), seed=seed)
             behs = syncexport.parse(out)
             for i, b in enumerate(behs):
                 cases.append(syncexport.build_case(b, "%s-%d" % (name, i)))
